@@ -230,10 +230,10 @@ def run(eng, rep):
     rep.explain('Also decided: every Dykstra call performs at least one sweep (C09-6); dykstra never re-assigns its tolerance / sweep limit (C09-3b); one-sided bound patterns with projections.')
     rep.not_decided += ["the sqrt(p*tol) distance bound itself (numerical; its structural premises are C15-3/4)"]
     rep.note("C09", "dfols/model.py", "Model calls dykstra with its default max_iter/tol rather than the dykstra.* parameters (observation, not part of the statement)")
-    rule_evaluations_are_dykstra_outputs(eng, rep)
-    rule_projection_list(eng, rep)
-    rule_scaling_off_with_projections(eng, rep)
-    rule_at_least_one_sweep(eng, rep)
+    rep.guarded(rule_evaluations_are_dykstra_outputs, eng, rep)
+    rep.guarded(rule_projection_list, eng, rep)
+    rep.guarded(rule_scaling_off_with_projections, eng, rep)
+    rep.guarded(rule_at_least_one_sweep, eng, rep)
     from .c15 import rule_limits_are_the_callers, rule_projector_argument_is_not_reused, rule_complete_sweeps
     from ..loader import AnalysisError
     for (r, rid) in ((rule_complete_sweeps, "C09-3d.dykstra-stops-only-after-the-last-set"), (rule_limits_are_the_callers, "C09-3b.dykstra-tests-the-callers-tolerance"),
